@@ -353,3 +353,28 @@ Definition derived_owned (tv : tvalue) : list nat := flat_map owned (tv_fields t
 Definition derived_balanced (k : nat) (d : tdesc) (tv : tvalue) : bool :=
   forallb (fun c => count_occ Nat.eq_dec (derived_visit d tv) c =?
                     count_occ Nat.eq_dec (derived_owned tv) c) (seq 0 k).
+
+Definition derived_e2e_expect (k : nat) (d : tdesc) (tv : tvalue) : list nat :=
+  let b := if derived_balanced k d tv then 1 else 0 in
+  b :: map (fun c => if count_occ Nat.eq_dec (derived_owned tv) c =? 0 then 1 else b) (seq 0 k).
+
+Definition derived_keep_expect (k : nat) (tv : tvalue) : list nat :=
+  match derived_owned tv with
+  | [] => []
+  | j :: _ => j :: 0 :: map (fun c => if count_occ Nat.eq_dec (derived_owned tv) c =? 0 then 1 else 0) (seq 0 k)
+  end.
+
+(** Boolean well-formedness of the generated cases (the checker requires [true]). *)
+Definition wf_tvalueb (d : tdesc) (tv : tvalue) : bool :=
+  match nth_error (variants d) (tv_variant tv) with
+  | Some vd => length (tv_fields tv) =? length (v_fields vd)
+  | None => false
+  end.
+
+Lemma wf_tvalueb_sound d tv : wf_tvalueb d tv = true -> wf_tvalue d tv.
+Proof.
+  unfold wf_tvalueb, wf_tvalue.
+  destruct (nth_error (variants d) (tv_variant tv)) as [vd|]; [|discriminate].
+  intros H. apply Nat.eqb_eq in H. eauto.
+Qed.
+
